@@ -19,7 +19,9 @@ BOUNDS = ("ONLY the plain-Python logic around the compiled interpolators. (1) _f
           "subsequence of the samples, every dropped sample differs from the previously kept height "
           "by less than the tolerance and every kept inner sample by at least the tolerance. "
           "(2) sample_path = filter(interpolated line, configured tolerance) (line interpolation "
-          "stubbed). (3) raster get_depth_at(x, y): for all finite x, y, map sizes 4..7 and scales: "
+          "stubbed); and the real line interpolation of both map types on a concrete line with "
+          "symbolic heights and scale: points on the line in order, each carrying scale x the height "
+          "looked up at its own (x, y). (3) raster get_depth_at(x, y): for all finite x, y, map sizes 4..7 and scales: "
           "0.0 outside [0,width) x [0,height), otherwise scale x interpolator(row=y, column=x) with "
           "the interpolator stubbed to a symbolic height; sparse get_depth_at = scale x "
           "interpolator(x, y); set_scale / set_tolerance reject non-positive / negative values. "
@@ -216,6 +218,60 @@ def _make_sparse_lookup():
     return h
 
 
+def _make_interpolate_line(kind):
+    """The real _interpolate_line / sample_path of both map types on a concrete line with a stub
+    interpolator returning symbolic heights: every returned point carries scale x the map's height
+    at its own (x, y), the path starts and ends at the line ends, points are in order."""
+    def h(h0: Finite, h1: Finite, h2: Finite, h3: Finite, scale: Finite):
+        assume(scale > 0)
+        heights = [h0, h1, h2, h3]
+        hm = _new(kind)
+        hm._scale_z = scale
+        hm._tolerance = 0.0 if kind == "raster" else 1.0
+        calls = []
+
+        def lookup(xy):
+            calls.append(xy)
+            return heights[len(calls) - 1]
+
+        if kind == "raster":
+            hm._height_map = _Shape(6, 6)
+
+            class Grid(list):
+                def __getitem__(self, k):
+                    if isinstance(k, tuple):
+                        return list.__getitem__(list.__getitem__(self, k[0]), k[1])
+                    return list.__getitem__(self, k)
+            hm._interpolator = lambda row, col: Grid([[lookup((col, row))]])
+            line = [1.0, 2.0, 4.0, 2.0]           # horizontal: 4 pixels (1,2) .. (4,2)
+            want_xy = [(1, 2), (2, 2), (3, 2), (4, 2)]
+        else:
+            hm._interpolator = lambda x, y: lookup((x, y))
+            line = [0.0, 1.0, 3.0, 1.0]           # length 3, tolerance 1 -> 3 segments, 4 points
+            want_xy = [(0.0, 1.0), (1.0, 1.0), (2.0, 1.0), (3.0, 1.0)]
+        hm._filter_points = lambda pts, tol: pts   # the filter has its own cells
+        try:
+            out = _with_np(kind, lambda: hm.sample_path(line))
+        except Exception as e:  # noqa: BLE001
+            msg = f"{type(e).__name__}: {e}"
+            return V("sample_path-unexpected-exception", msg)
+        out = [tuple(p) for p in out]
+        ctx = lambda: f"{kind} line {line!r}: points {out!r}, look-ups {calls!r}, scale {scale!r}"  # noqa: E731
+        if len(out) != 4 or len(calls) != 4:
+            return V("sample_path-wrong-number-of-points-or-lookups", ctx)
+        for i, (p, xy) in enumerate(zip(out, want_xy)):
+            if not (num_eq(p[0], xy[0]) and num_eq(p[1], xy[1])):
+                return V("sample_path-point-not-on-the-line-in-order", ctx)
+            cx, cy = calls[i]
+            if not (num_eq(cx, xy[0]) and num_eq(cy, xy[1])):
+                return V("sample_path-height-looked-up-elsewhere", ctx)
+            if not num_eq(p[2], scale * heights[i]):
+                return V("sample_path-point-does-not-carry-the-maps-height", ctx)
+        reached("checked")
+        return None
+    return h
+
+
 def _make_setters(kind):
     def h(s: float, t: float):
         hm = _new(kind)
@@ -259,6 +315,9 @@ def cells(tier):
                                 must_reach=("checked",), entry=f"{kind}._filter_points"))
         out.append(Cell(f"setters|{kind}", _make_setters(kind), budget_s=120, must_reach=("checked",),
                         entry=f"{kind}.set_scale/set_tolerance"))
+    for kind in ("raster", "sparse"):
+        out.append(Cell(f"interpolate-line|{kind}", _make_interpolate_line(kind), budget_s=120,
+                        must_reach=("checked",), entry=f"{kind}.sample_path/_interpolate_line"))
     for (hh, ww) in ((4, 4), (4, 7), (6, 5)):
         out.append(Cell(f"raster-lookup|{ww}x{hh}", _make_raster_lookup(hh, ww), budget_s=120,
                         must_reach=("inside", "outside"), entry="RasterHeightMap.get_depth_at"))
